@@ -144,3 +144,99 @@ def family_decimal(check, tier, observe, xsd_ok):
         check.count(('decs', s))
         if o[0] != 'vfault':
             check.fail('C08|Decimal|non-finite', 'Decimal text %r (no xs:decimal value) read as %r' % (s, o), {'text': s})
+
+
+# ------------------------------------------------------------------ Uuid
+UUID_IMPORTS = ('From SpyneV Require Import Base.Prelude Base.Digits C08.UuidModel.\n'
+                'Definition zout_eqb := out_eqb Z.eqb.')
+
+def uuid_values(check, tier):
+    rng = check.rng
+    vals = [0, 1, 15, 16, 255, 2 ** 32 - 1, 2 ** 32, 2 ** 64 - 1, 2 ** 64, 2 ** 127, 2 ** 128 - 1, 2 ** 128 - 2,
+            0x12345678123456781234567812345678, 0xabcdefabcdefabcdefabcdefabcdefab, 0x0b345678123456781234567812345678,
+            10 ** 38, 0xa << 124, 0xf << 124, 0x9 << 124]
+    for k in range(0, 128, 4):
+        vals.append(0xa << k)
+        vals.append((1 << k) - 1)
+    n = 120 if tier == 'quick' else 3000
+    for _ in range(n):
+        vals.append(rng.getrandbits(rng.choice([128, 128, 128, 64, 100, 8])))
+    return vals
+
+def uuid_literals(check, tier):
+    rng = check.rng
+    h = '12345678123456781234567812345678'
+    c = '12345678-1234-5678-1234-567812345678'
+    lits = [h, h.upper(), c, c.upper(), '{' + h + '}', '{' + c + '}', 'urn:uuid:' + h, 'urn:uuid:' + c, '{{' + h + '}}', '}' + h + '{',
+            h[:8] + '-' + h[8:], '-----' + h, h + '---', '0x' + h[2:], '0X' + h[2:], '+' + h[1:], ' ' + h[1:], h[1:] + ' ',
+            '\n' + h[1:], '1_' + h[2:], '_' + h[1:], h[1:] + '_', '1__' + h[3:], '0x_' + h[3:], '0x__' + h[4:], '+0x' + h[3:],
+            ' 0x1' + h[4:], '-' + h, 'urn:' + h, 'uuid:' + h, 'uurn:uid:' + h, 'uuuid:id:' + h, 'urn:urn:uuid:' + h,
+            'URN:UUID:' + h, h[:31], h + '0', '', 'g' + h[1:], h[:16] + '{}' + h[16:], '{' + h, h + '}', 'u{rn:' + h + '}',
+            '\x1c' + h[1:], '\xa0' + h[1:], '0x' + '0' * 30, '+_' + h[2:], '+ ' + h[2:], '0b' + h[2:], '0o' + h[2:], '00' + h[2:],
+            'urn:uuid:{' + h + '}', '{urn:uuid:' + h + '}', '0x' + h[:30], '0x' + '_' + h[:29], 'x' * 32, '0x' * 16, '+' * 32, ' ' * 32,
+            '0' * 32, 'f' * 32, 'F' * 32, ' ' * 31 + '1', '1' + ' ' * 31, ' ' * 15 + '1f' + ' ' * 15, '1' + '_1' * 15 + '2', '1_' * 16,
+            '+' + '0x' + 'f' * 29, '-' * 40, '{' * 32, 'uuid:' * 8, 'urn:' * 8 + h, 'ururn:n:' + h, 'uuuid:uid:' + h, 'urn' + h, ':' + h[1:],
+            c[:-1], c + '0', c.replace('-', '_'), c.replace('-', ' '), c[:8] + c[9:], 'urn:uuid:', '{}', '{-}', h[:30] + 'éé']
+    n = 200 if tier == 'quick' else 4000
+    for _ in range(n):
+        r = rng.random()
+        x = '%032x' % rng.getrandbits(128)
+        if rng.random() < .3:
+            x = ''.join(rng.choice([ch, ch.upper()]) for ch in x)
+        if r < .3:
+            s = x[:8] + '-' + x[8:12] + '-' + x[12:16] + '-' + x[16:20] + '-' + x[20:]
+        elif r < .5:
+            s = rng.choice(['', '{', 'urn:uuid:', 'urn:', 'uuid:', '{{']) + x + rng.choice(['', '}', '}}', '-'])
+        elif r < .8:
+            k = rng.randrange(len(x))
+            s = x[:k] + rng.choice(['-', '_', ' ', 'g', 'x', '0x', '{', '}', 'urn:', 'uuid:', '', '+', 'u', ':']) + x[k + rng.choice([0, 1, 2]):]
+        else:
+            s = ''.join(rng.choice('0123456789abcdefABCDEF-_{}urnid:x+ ') for _ in range(rng.choice([32, 36, 33, 31, rng.randint(0, 45)])))
+        lits.append(s)
+    return lits
+
+def family_uuid(check, tier, observe, xsd_ok):
+    from spyne.protocol import ProtocolBase
+    from spyne.model.primitive import Uuid
+    from spyne.model.primitive.string import UUID_PATTERN
+    prot = ProtocolBase()
+    vals = uuid_values(check, tier)
+    pc = []
+    for v in vals:
+        o = observe(prot.to_unicode, Uuid, uuid.UUID(int=v))
+        pc.append(('(%s, %s)' % (gz(v), gtext(o[1]) if o[0] == 'ok' else '[0]'), 'to_unicode(Uuid,%032x)=%r' % (v, o)))
+        check.count(('uuidp', v))
+    lib.correspond(check, 'uuid_print', UUID_IMPORTS, 'Z * text',
+                   '(fun c => text_eqb (uuid_to_unicode (fst c)) (snd c))', pc,
+                   show='(fun c : Z * text => uuid_to_unicode (fst c))')
+    lits = uuid_literals(check, tier)
+    rc = []
+    for s in lits:
+        o = observe(prot.from_unicode, Uuid, s)
+        rc.append(('(%s, %s)' % (gtext(s), gout(o, lambda u: gz(u.int))), 'from_unicode(Uuid,%r)->%r' % (s, o)))
+        check.count(('uuidr', s))
+    lib.correspond(check, 'uuid_read', UUID_IMPORTS, 'text * out Z',
+                   '(fun c => zout_eqb (uuid_from_unicode (fst c)) (snd c))', rc,
+                   show='(fun c : text * out Z => uuid_from_unicode (fst c))')
+    check.sample({'family': 'uuid', 'values': ['%032x' % v for v in vals[:4]], 'literals': lits[:8]})
+    # direct oracle: round trip, Spyne's own pattern (the facet its schema publishes) on what is written,
+    # every text of that pattern read as the value of its digits, no exception other than ValidationError
+    pat = re.compile(UUID_PATTERN)
+    for v in vals:
+        u = uuid.UUID(int=v)
+        s = prot.to_unicode(Uuid, u)
+        o = observe(prot.from_unicode, Uuid, s)
+        check.count(('uuido', v))
+        if o != ('ok', u):
+            check.fail('C08|Uuid|roundtrip', 'Uuid %r written %r read back %r' % (u, s, o), {'value': str(u)})
+        elif not pat.fullmatch(s) or not xsd_ok('string', s):
+            check.fail('C08|Uuid|out_lex', 'Uuid text %r does not match UUID_PATTERN' % s, {'value': str(u)})
+    for s in lits:
+        o = observe(prot.from_unicode, Uuid, s)
+        check.count(('uuidl', s))
+        if o[0] == 'crash':
+            check.fail('C08|Uuid|malformed', 'Uuid text %r raised %r' % (s, o), {'text': s})
+        elif re.fullmatch('[0-9a-fA-F]{8}-[0-9a-fA-F]{4}-[0-9a-fA-F]{4}-[0-9a-fA-F]{4}-[0-9a-fA-F]{12}', s, re.ASCII):
+            want = uuid.UUID(int=int(s.replace('-', ''), 16))
+            if o != ('ok', want):
+                check.fail('C08|Uuid|in_lex', 'canonical uuid text %r read as %r' % (s, o), {'text': s})
